@@ -123,11 +123,48 @@ def normalise(lines):
     return out
 
 
+def path_form(path, form):
+    """the same file named in another legal way"""
+    import pathlib
+    if form == 'Path':
+        return pathlib.Path(path)
+    if form == 'bytes':
+        return os.fsencode(path)
+    if form == 'relative':
+        return os.path.relpath(path)
+    if form == 'dotted':
+        return os.path.join(os.path.dirname(path), '.', os.path.basename(path))
+    return path
+
+
+def arg_form(arg, form):
+    """the same stations in another container"""
+    if form == 'tuple':
+        return tuple(arg)
+    if form == 'set':
+        return set(arg)
+    if form == 'frozenset':
+        return frozenset(arg)
+    if form == 'nparray':
+        return np.array(list(arg))
+    if form == 'dictkeys':
+        return dict.fromkeys(arg).keys()
+    if form == 'reversed-list':
+        return list(reversed(arg))
+    if form == 'duplicated':
+        return list(arg) + list(arg)
+    return arg
+
+
 def run_op(rec, op, path, arg, clock, one, co):
     set_clock(clock)
     out = os.path.join(os.getcwd(), 'output.snx')
     if os.path.exists(out):
         os.remove(out)
+    if one.get('pathform'):
+        path = path_form(path, one['pathform'])
+    if one.get('argform') and arg is not None:
+        arg = arg_form(arg, one['argform'])
     if op == 'remove':
         st, r = rec.call(gn.remove_stns_sinex, path, arg)
     elif op == 'velocity':
@@ -243,6 +280,18 @@ def ev_remove(case, rec):
             if p2 is None or normalise(p2['lines']) != normalise(p['lines']):
                 rec.fail('a second removal with the same list object gives a different file', site='gnss:remove:second-call',
                          observed=None if p2 is None else p2['npar'], expected=p['npar'], case=one, coords=co)
+        if p is not None and sub and case['nstn'] <= 5 and not case.get('order'):
+            # the same stations in another container, the same file named in another way: the same output
+            k = (len(sub) + case['nstn']) % 7
+            af = ['tuple', 'set', 'frozenset', 'nparray', 'dictkeys', 'reversed-list', 'duplicated'][k]
+            pf = ['Path', 'bytes', 'relative', 'dotted'][k % 4]
+            for extra in ({'argform': af}, {'pathform': pf}):
+                pe = run_op(rec, 'remove', path, list(sub), DEFAULT_CLOCK, dict(one, **extra), co)
+                if pe is None or normalise(pe['lines']) != normalise(p['lines']):
+                    rec.fail('removal gives a different file when %s' % ('the stations are given as a %s' % af if 'argform' in extra
+                                                                         else 'the file is named by a %s path' % pf),
+                             site='gnss:remove:input-form', observed=None if pe is None else pe['npar'], expected=p['npar'],
+                             case=dict(one, **extra), coords=dict(co, **extra))
         if p is None:
             rec.outcome('malformed')
             continue
